@@ -94,12 +94,12 @@ def _(L):
     S = L.st
     pre = L.prefix
 
-    def c_has(new, old):
+    def c_has(new, old, *_):
         return [Schema("memo-shrinks-prefix-cleared", MEMO_KEY,
                        lambda v, d, u, f: Implies(new(v, d, u, f), And(old(v, d, u, f), Not(And(v != NONE, Mem(pre, v))))),
                        trigger=("memo_has",))]
 
-    def c_stats(new, old):
+    def c_stats(new, old, *_):
         return [Schema("stats-monotone", (Int,), lambda u: Implies(old(u), new(u)), trigger=("stats_has",))]
     return LoopInv(state=S, loose=[Loose("memo_has", c_has), Loose("stats_has", c_stats)])
 
@@ -223,7 +223,7 @@ def base_init_effects(c, o, obj, uid, attrs, unis_seq, uid_loose=True):
     """BaseObject.__init__: uid (given, or an arbitrary positive integer), attributes, de-duplicated universes"""
     S = c.S
 
-    def c_uid(new, old):
+    def c_uid(new, old, *_):
         # the given uid, or (uid None/0) an arbitrary positive integer (uuid4); nobody else's uid changes
         return [Schema("uid-given-or-generated", (Ref,),
                        lambda x: If(x == obj, If(uid != 0, new(x) == uid, new(x) > 0), new(x) == old(x)), trigger=("_uid",))]
@@ -296,12 +296,12 @@ def _(L):
     st.write("_vertices", l, pre)
     st.write_where("_links", lambda ad: (And(ad[0] != NONE, Mem(pre, ad[0])), snoc(E.links(ad[0]), l)))
 
-    def c_has(new, old):
+    def c_has(new, old, *_):
         return [Schema("memo-shrinks-prefix-cleared", MEMO_KEY,
                        lambda v, d, u, f: Implies(new(v, d, u, f), And(old(v, d, u, f), Not(And(v != NONE, Mem(pre, v))))),
                        trigger=("memo_has",))]
 
-    def c_stats(new, old):
+    def c_stats(new, old, *_):
         return [Schema("stats-monotone", (Int,), lambda u: Implies(old(u), new(u)), trigger=("stats_has",))]
     return LoopInv(state=st, loose=[Loose("memo_has", c_has), Loose("stats_has", c_stats)])
 
@@ -426,7 +426,7 @@ MEMO_KEY_L = MEMO_KEY + (Ref,)
 
 def memo_shrinks_unless(clear5):
     """loose memo constraint with one extra universally quantified reference: new(v,k) -> old(v,k) and not clear5(v, l)"""
-    def c_has(new, old):
+    def c_has(new, old, *_):
         return [Schema("memo-only-shrinks-and-cleared", MEMO_KEY_L,
                        lambda v, d, u, f, l: Implies(new(v, d, u, f), And(old(v, d, u, f), Not(clear5(v, l)))),
                        trigger=("memo_has",))]
@@ -434,7 +434,7 @@ def memo_shrinks_unless(clear5):
 
 
 def c_stats_with(uidterm):
-    def c_stats(new, old):
+    def c_stats(new, old, *_):
         return [Schema("stats-monotone", (Int,), lambda u: Implies(Or(old(u), u == uidterm), new(u)), trigger=("stats_has",))]
     return c_stats
 
@@ -462,7 +462,7 @@ def _(c):
     from pyvc.contracts import Loose
     o.loose("memo_has", memo_shrinks_unless(
         lambda x, l: Or(x == v, And(x != NONE, Mem(Lseq, l), Mem(snoc(S.ends(l), v), x)))))
-    o.loose("stats_has", lambda new, old: [Schema("stats-monotone", (Int,), lambda u: Implies(old(u), new(u)), trigger=("stats_has",))])
+    o.loose("stats_has", lambda new, old, *_: [Schema("stats-monotone", (Int,), lambda u: Implies(old(u), new(u)), trigger=("stats_has",))])
 
 
 @REG.loop("Vertex.__init__", 0)
@@ -476,7 +476,7 @@ def _(L):
     st.write_where("_vertices", lambda ad: (And(ct.is_a(ad[0], "Link"), Mem(pre, ad[0])), snoc(E.read("_vertices", ad[0]), v)))
     return LoopInv(state=st, loose=[
         Loose("memo_has", memo_shrinks_unless(lambda x, l: And(x != NONE, Mem(pre, l), Mem(snoc(E.ends(l), v), x)))),
-        Loose("stats_has", lambda new, old: [Schema("stats-monotone", (Int,), lambda u: Implies(old(u), new(u)), trigger=("stats_has",))])])
+        Loose("stats_has", lambda new, old, *_: [Schema("stats-monotone", (Int,), lambda u: Implies(old(u), new(u)), trigger=("stats_has",))])])
 
 
 @REG.loop("Vertex.__init__", 1)
@@ -598,7 +598,7 @@ def _(c):
         o.set("_laws", u, L)
         o.set("_applies_to", L, u)
 
-        def c_uid(new, old, Lnew=Lnew):
+        def c_uid(new, old, *_, Lnew=Lnew):
             return [Schema("uid-given-or-generated", (Ref,),
                            lambda x: If(x == u, If(c.uid != 0, new(x) == c.uid, new(x) > 0),
                                         If(x == Lnew, new(x) > 0, new(x) == old(x)) if Lnew is not None else new(x) == old(x)),
@@ -607,12 +607,12 @@ def _(c):
         # members
         o.set("_vertices", u, T.Dedup(Vseq))
         o.set_where("_universes", lambda ad: (And(c.ct.is_a(ad[0], "Vertex"), Mem(Vseq, ad[0])), snoc(S.unis(ad[0]), u)))
-        o.loose("memo_has", lambda new, old: [Schema("memo-only-shrinks-and-cleared", MEMO_KEY,
+        o.loose("memo_has", lambda new, old, *_: [Schema("memo-only-shrinks-and-cleared", MEMO_KEY,
                 lambda v, d, uu, f: Implies(new(v, d, uu, f), And(old(v, d, uu, f), v != u)), trigger=("memo_has",))])
         stats_monotone(o)
         if Lnew is not None:
             for f_ in ("_mixed_links", "_cycles", "_multipath", "_multiverse", "_edge_whitelist"):
-                o.loose(f_, lambda new, old, f_=f_, Lnew=Lnew: [Schema("only-new-laws-written", (Ref,),
+                o.loose(f_, lambda new, old, *_, f_=f_, Lnew=Lnew: [Schema("only-new-laws-written", (Ref,),
                         lambda x: Implies(x != Lnew, new(x) == old(x)), trigger=(f_,))])
 
 
@@ -626,3 +626,12 @@ def _(L):
     st.write("_vertices", u, T.Dedup(pre))
     st.write_where("_universes", lambda ad: (And(ct.is_a(ad[0], "Vertex"), Mem(pre, ad[0])), snoc(E.unis(ad[0]), u)))
     return LoopInv(state=st)
+
+
+@contract("BaseObject.__getitem__", "self:BaseObject, name:str", pure_getter=True, props=("C08", "C13"))
+def _(c):
+    eng = c.engine
+    has = z3.Or(c.S.read("dyn_has", c.self, c.name), T.cls_has(T.cls_of(c.self), c.name))
+    val = ite(c.S.read("dyn_has", c.self, c.name), c.S.read("dyn_val", c.self, c.name), T.cls_get(c.self, c.name))
+    c.raises("AttributeError", when=Not(has))
+    c.normal(when=has, result=VRef(val, None, "opaque"))
